@@ -54,16 +54,22 @@ func (fc *fileCache) Add(key Key, content io.Reader) (err error) {
 			_ = os.Remove(file.Name())
 		}
 	}()
+	verifPoint("after-create")
+	content = verifReader(content)
 	if _, err = io.Copy(file, content); err != nil {
 		return
 	}
+	verifPoint("after-copy")
 	if err = file.Sync(); err != nil {
 		return
 	}
+	verifPoint("after-sync")
 	if err = file.Close(); err != nil {
 		return
 	}
+	verifPoint("after-close")
 	err = os.Rename(file.Name(), path)
+	verifPoint("after-rename")
 	return
 }
 
